@@ -289,7 +289,7 @@ pub fn huff_tree_specs(scale: Scale, tier: Tier, bits: u32, arity: usize, seed: 
     let mut l = lo;
     while l <= top {
         let w = deep_code_weights(arity, l);
-        if (w.len() as u128) <= type_max(bits) + 1 {
+        if (w.len() as u128) <= type_max(bits).saturating_add(1) {
             out.push(SeqSpec {
                 n: w.iter().sum::<u64>() as usize,
                 alpha: Alpha::Dense(w.len()),
